@@ -4,7 +4,8 @@ from vf.program import Program
 from vf.contracts import verify_function, model_summary
 from contracts.registry import build
 prog = Program()
-reg = build()
+import os
+reg = build(os.environ.get('VARIANT'))
 names = sys.argv[1:] or [q for q, c in reg.contracts.items() if not c.assumed]
 tot = 0
 for q in names:
